@@ -4,7 +4,7 @@
    sdk/go/manifest (firstBlock + scan) and of sdk/python/arvados/_ranges.py; [nonempty] drops zero-length segments. *)
 From Coq Require Import NArith List String Ascii Bool.
 From AV Require Import lib.Str model.C10_manifest model.C10_ranges model.C10_fs model.C10_gomanifest model.C10_python
-  lib.Md5 proofs.C10_witness proofs.C10_ranges_proofs proofs.C10_escape_proofs proofs.C10_bytes_proofs proofs.C10_pdh_proofs proofs.C10_gm_proofs.
+  lib.Md5 proofs.C10_witness proofs.C10_ranges_proofs proofs.C10_escape_proofs proofs.C10_bytes_proofs proofs.C10_pdh_proofs proofs.C10_gm_proofs model.C10_run proofs.C10_run_proofs.
 Import ListNotations.
 Local Open Scope N_scope.
 
@@ -137,3 +137,31 @@ Theorem C10_valid_manifest_example :
                   "./c d41d8cd98f00b204e9800998ecf8427e+0 0:0:d" ++ s_nl)%string = true.
 Proof. vm_compute. reflexivity. Qed.
 Print Assumptions C10_valid_manifest_example.
+
+(* ---- what the evaluator's verdicts mean (spec_b reflects Prop-level statements over ALL block stores) ---- *)
+(* FS stage, valid manifest: the text produced by MarshalManifest is valid and denotes the same files with the same
+   bytes for every store; the observed portable data hash is the published one *)
+Theorem C10_fs_verdict_meaning : forall c, FS.spec_valid c = true -> valid_manifest (FS.c_txt c) = true ->
+  exists m out m',
+    parse_manifest (FS.c_txt c) = Some m /\ FS.o_marshal c = Some out /\
+    valid_manifest out = true /\ parse_manifest out = Some m' /\
+    ref_files m' = ref_files m /\ ref_dirs m' = ref_dirs m /\
+    (forall st p, In p (ref_files m) -> file_bytes st m' p = file_bytes st m p) /\
+    FS.o_pdh c = (md5hex (strip_manifest (FS.c_txt c)) ++ "+" ++ dec (slen (strip_manifest (FS.c_txt c))))%string.
+Proof. exact fs_spec_valid_sound. Qed.
+Print Assumptions C10_fs_verdict_meaning.
+
+(* GM stage: an accepted Extract(src, relocate) result is a valid manifest in which every destination path holds, for
+   every block store, the bytes of its source path (extract_preserves / normalize_preserves as judged per case) *)
+Theorem C10_extract_verdict_meaning : forall m src reloc out, GM.extract_ok m src reloc out = true ->
+  extract_ref m src (GM.strip_slash reloc) (has_suffix_slash reloc) <> [] ->
+  exists m', valid_manifest out = true /\ parse_manifest out = Some m' /\
+    forall st d s, In (d, s) (extract_ref m src (GM.strip_slash reloc) (has_suffix_slash reloc)) ->
+                   file_bytes st m' d = file_bytes st m s.
+Proof. exact gm_extract_ok_sound. Qed.
+Print Assumptions C10_extract_verdict_meaning.
+
+Theorem C10_fs_check_case_is_model_plus_spec : forall c,
+  FS.check_case c = ((if FS.model_b c then 0 else 1) + (if FS.spec_b c then 0 else 2))%N.
+Proof. exact fs_check_case_eq. Qed.
+Print Assumptions C10_fs_check_case_is_model_plus_spec.
